@@ -643,8 +643,15 @@ static int32 pkcs12import(psPool_t *pool, const unsigned char **buf,
         return PS_PARSE_FAIL;
     }
 
-    if (tmplen < 1 || (uint32) (end - p) < tmplen)
+    /* Both supported ciphers are 8-byte block ciphers in CBC mode */
+    if (tmplen < 1 || (uint32) (end - p) < tmplen || (tmplen % 8) != 0)
     {
+        if (decryptKey)
+        {
+            memset_s(decryptKey, keyLen, 0x0, keyLen);
+            psFree(decryptKey, pool);
+        }
+        psFree(iv, pool);
         return PS_PARSE_FAIL;
     }
 
